@@ -252,7 +252,14 @@ def ds_arith(ctx, struct, op, other):
                     ls.append(own[d])
                 else:
                     ls.append(l)
-            ds2[k] = ctx.mk(list(ref.dims), ls, cells2[k], lkinds=[LK[DIMS.index(d)] for d in ref.dims], register=False)
+            if other == 'dataset-transposed' and len(ref.dims) >= 2:
+                # the second dataset stores this variable with its dimensions in the reverse order (same labels, same axes at
+                # dataset level): variables are combined by dimension name
+                rd = list(reversed(ref.dims))
+                v2 = ctx.mk(list(ref.dims), ls, cells2[k], lkinds=[LK[DIMS.index(d)] for d in ref.dims], register=False).transpose(rd)
+                ds2[k] = v2
+            else:
+                ds2[k] = ctx.mk(list(ref.dims), ls, cells2[k], lkinds=[LK[DIMS.index(d)] for d in ref.dims], register=False)
         r = ctx.call(lambda: f(ds, ds2))
         exp = dict((k, ctx.call(lambda: f(ds[k], ds2[k]))) for k in ds.keys())
     if r[0] != 'ok':
@@ -369,7 +376,7 @@ def templates():
             add('%s-under-position-%s-%s' % (op, sname, dim), 'ds_op', cost=2, struct=sname, op=op, dim=dim, under=POS)
     for sname in ('a_x', 'a_x-b_yx', 'a_xy-b_y-c_0'):
         for op in ('add', 'sub', 'mul', 'div'):
-            for other in ('scalar', 'rscalar', 'dataset', 'dataset-free'):
+            for other in ('scalar', 'rscalar', 'dataset', 'dataset-free', 'dataset-transposed'):
                 add('arith-%s-%s-%s' % (op, other, sname), 'ds_arith', cost=0.5 if other != 'dataset-free' else 4, struct=sname, op=op, other=other)
     for sname in ('a_x', 'a_x-b_yx', 'a_xy-b_y-c_0'):
         add('stack_ds-%s' % sname, 'ds_join', cost=1, struct=sname, how='stack')
